@@ -522,6 +522,15 @@ func (cs *ContractSet) ParseContractFile(path, pkg string, trusted bool) error {
 					return fail(fmt.Errorf("local NAME TYPE [= INIT]"))
 				}
 				ld := LocalDef{Name: fs[0], Type: fs[1]}
+				// the type may contain spaces (chan struct{}): everything up to the `=`
+				if tt := strings.TrimSpace(strings.TrimPrefix(strings.TrimSpace(rest), fs[0])); tt != "" {
+					if i := strings.Index(tt, "="); i >= 0 {
+						tt = strings.TrimSpace(tt[:i])
+					}
+					if tt != "" {
+						ld.Type = tt
+					}
+				}
 				if i := strings.Index(rest, "="); i >= 0 {
 					e, err := parseSpecExpr(rest[i+1:])
 					if err != nil {
